@@ -288,6 +288,15 @@ impl Iterator for Lexer {
     fn next(&mut self) -> Option<Self::Item> {
         self.skip_ws();
 
+        // A '.' that does not start a directive name is skipped. The
+        // directive arm below does this by calling `next()` again, one stack
+        // frame per dot, so a long run of dots overflowed the stack; skip
+        // such dots here instead.
+        while self.current() == Some('.') && !self.peek(1).is_some_and(Self::is_symbol_char) {
+            self.consume_char();
+            self.skip_ws();
+        }
+
         // TODO(rajan): ensure that we are consistent with whether the tokens are included or not in the Token representation
         // TODO(rajan): should we introduce a new token type for the comment hash (#) and directive hash (.)?
 
